@@ -48,6 +48,8 @@ pub enum Via {
 pub enum Item {
     Marker(u8),
     Include(String),
+    /// `#if true { #include "…" }` — an inclusion inside a conditional block
+    IfInclude(String),
     IncFn { kind: IncKind, spelling: String, start: Option<usize>, len: Option<usize>, via: Via },
 }
 
@@ -125,6 +127,7 @@ impl Case {
                 match item {
                     Item::Marker(b) => t.push_str(&format!("#d8 {}\n", b)),
                     Item::Include(sp) => t.push_str(&format!("#include \"{}\"\n", esc(sp))),
+                    Item::IfInclude(sp) => t.push_str(&format!("#if true\n{{\n    #include \"{}\"\n}}\n", esc(sp))),
                     Item::IncFn { kind, spelling, start, len, via } => {
                         let fname = match kind {
                             IncKind::Incbin => "incbin",
@@ -368,7 +371,12 @@ pub fn draw_case(rng: &mut Rng) -> Case {
                     let t = if rng.chance(3, 4) && i + 1 < nsrc { rng.range(i + 1, nsrc - 1) } else { rng.below(nsrc) };
                     let from = files[i].path.clone();
                     let target = files[t].path.clone();
-                    items.push(Item::Include(draw_spelling(rng, &from, &target, false, std_dir, clean)));
+                    let sp = draw_spelling(rng, &from, &target, false, std_dir, clean);
+                    if rng.chance(1, 25) {
+                        items.push(Item::IfInclude(sp));
+                    } else {
+                        items.push(Item::Include(sp));
+                    }
                 }
                 _ => {
                     if data.is_empty() {
@@ -467,7 +475,30 @@ fn bits_of_output(rec: &Record) -> Option<String> {
     rec.writes.iter().find(|w| w.spelling == "out.txt" && w.complete).map(|w| String::from_utf8_lossy(&w.data).to_string())
 }
 
+/// The case with every conditional include removed (what the assembler
+/// effectively sees today: `#include` inside `#if` is silently ignored).
+fn without_if_includes(case: &Case) -> Case {
+    let mut c = case.clone();
+    for f in c.files.iter_mut() {
+        f.items.retain(|i| !matches!(i, Item::IfInclude(_)));
+    }
+    c
+}
+
 pub fn check(case: &Case, job: &Job, rec: &Record) -> Vec<Violation> {
+    let v = check_inner(case, job, rec);
+    if !v.is_empty() && case.files.iter().any(|f| f.items.iter().any(|i| matches!(i, Item::IfInclude(_)))) {
+        // Is the whole discrepancy explained by the conditional includes
+        // having been ignored? Then it is that one specific defect.
+        let stripped = without_if_includes(case);
+        if check_inner(&stripped, job, rec).is_empty() {
+            return vec![Violation::new("include-inside-if-ignored", format!("an `#include` inside an `#if true {{ }}` block was silently ignored: {}", v[0].detail))];
+        }
+    }
+    v
+}
+
+fn check_inner(case: &Case, job: &Job, rec: &Record) -> Vec<Violation> {
     let mut v = Vec::new();
     let builtins = crate::job::std_file_names();
     let m = model14::run(case, builtins);
@@ -591,6 +622,9 @@ fn exec_case(ctx: &mut Ctx, case: &Case, verif: &str, out: &mut Vec<Replay>) {
         }
     }
     let edges = case.files.iter().map(|f| f.items.iter().filter(|i| !matches!(i, Item::Marker(_))).count()).sum::<usize>();
+    if case.files.iter().any(|f| f.items.iter().any(|i| matches!(i, Item::IfInclude(_)))) {
+        ctx.stats.inc("cases_with_conditional_include");
+    }
     let reached_disk = rec.events.iter().filter(|e| matches!(e.op, Op::Probe | Op::Open)).count() > 1;
     if edges >= 1 && reached_disk {
         ctx.stats.note("nontrivial", case.digest()[..16].to_string());
@@ -693,6 +727,17 @@ fn proc_plan_of(case: &Case) -> ProcPlan {
 }
 
 pub fn check_proc_record(case: &Case, rec: &ProcRecord) -> Vec<Violation> {
+    let v = check_proc_record_inner(case, rec);
+    if !v.is_empty() && case.files.iter().any(|f| f.items.iter().any(|i| matches!(i, Item::IfInclude(_)))) {
+        let stripped = without_if_includes(case);
+        if check_proc_record_inner(&stripped, rec).is_empty() {
+            return vec![Violation::new("include-inside-if-ignored", format!("an `#include` inside an `#if true {{ }}` block was silently ignored by the real binary: {}", v[0].detail))];
+        }
+    }
+    v
+}
+
+fn check_proc_record_inner(case: &Case, rec: &ProcRecord) -> Vec<Violation> {
     let mut v = Vec::new();
     if rec.skipped.is_some() {
         return v;
